@@ -8,6 +8,7 @@ package c20
 
 import (
 	"fmt"
+	"os"
 	"strings"
 	"time"
 
@@ -43,6 +44,9 @@ func plans(tier string, tmpl []replica.Template, nBase int) []plan {
 			}
 		}
 	}
+	for _, c := range replica.LifecycleChains(tmpl, nBase) {
+		out = append(out, plan{c, c.Name})
+	}
 	for i := 0; i < nBase; i++ {
 		out = append(out, plan{replica.Plan{Blocks: [][]int{{i}}, Tail: 3}, name(i)})
 		for j := 0; j < nBase; j++ {
@@ -72,7 +76,17 @@ func Worker(shard, n int, tier string) *engine.Result {
 			res.CapHit = true
 			break
 		}
+		if only := os.Getenv("VERIF_ONLY"); only != "" && only != p.desc {
+			continue
+		}
 		h, ref, wref := f.RunReference(p.Plan, tmpl)
+		if os.Getenv("VERIF_ONLY") != "" {
+			for _, st := range ref {
+				if strings.Contains(st.Label, "deliver") {
+					fmt.Println(st.Label, st.Detail)
+				}
+			}
+		}
 		res.Evaluations++
 		if strings.HasPrefix(p.desc, "gov") && !strings.Contains(p.desc, ">") {
 			ctx := wref.Ctx()
@@ -139,7 +153,7 @@ func Run(tier string) int {
 	res.Sample(map[string]any{"history": "govEvmParams>...>evmBankQuery", "restart": "after every block boundary k = 0..7, modes same-db / copied-db / twice"})
 	return engine.Finish(res, engine.Meta{
 		Property: Prop, Tier: tier, Level: "model_checking", Start: start,
-		Rule: "histories: every base template alone, a third (thorough: all) of the ordered pairs, every governance flow (EVM params incl. active precompiles and EnableCreate, fee-market params with a base-fee activation height, ERC20 params) alone and followed by every base template after it took effect; for EVERY block boundary of every history one restart replica; compared: Info() height and app hash, 27 gRPC queries after every commit, every later DeliverTx/EndBlock/BeginBlock response and app hash; transitions = restart replicas run",
+		Rule: "histories: every base template alone, a third (thorough: all) of the ordered pairs, every governance flow (EVM params incl. active precompiles and EnableCreate, fee-market params with a base-fee activation height, ERC20 params, token-pair conversion toggle) alone and followed by every base template after it took effect, and 5 life-cycle chains (switch off, use, switch on, use); for EVERY block boundary of every history one restart replica; compared: Info() height and app hash, 27 gRPC queries after every commit, every later DeliverTx/EndBlock/BeginBlock response and app hash; transitions = restart replicas run",
 		Assumptions: []string{
 			"the database is a MemDB kept across the restart (or copied key by key); torn writes inside a multistore commit are not modelled (crash points are block boundaries)",
 			"erc20.RegisterERC20Extensions / AddEVMExtensions have no caller reachable from block histories at this commit",
